@@ -204,6 +204,39 @@ def validate (H : Hmac) (tbl : List AlgEntry) (wire : Bytes) (key : Key) (owner 
   | .error e => .error e
   | .ok r => .ok r.2
 
+/-! ## names inside the message (`dns.name.from_wire_parser`), with explicit fuel
+
+Same steps as `Model.fromWireAux` (C01), but by structural recursion on a step counter, so that the kernel can
+evaluate the reader on concrete messages.  Every step either consumes a label or follows a strictly backward
+pointer, so `(len+1)*(len+2)` steps always suffice. -/
+
+def nameAt (w : Bytes) (endp : Nat) : Nat → Nat → Nat → Nat → List Label → Except NameErr (Name × Nat)
+  | 0, _, _, _, _ => .error .formError
+  | fuel + 1, cur, bp, furthest, acc =>
+    if cur < endp ∧ endp ≤ w.length then
+      let c := w.getD cur 0
+      if c = 0 then .ok (acc ++ [[]], max furthest (cur + 1))
+      else if c < Consts.ptrLabelMin then
+        if c > endp - (cur + 1) then .error .formError
+        else nameAt w endp fuel (cur + 1 + c) bp (max (max furthest (cur + 1)) (cur + 1 + c))
+          (acc ++ [(w.drop (cur + 1)).take c])
+      else if c ≥ Consts.ptrTagMin then
+        if cur + 1 < endp then
+          let t := (c % 64) * 256 + w.getD (cur + 1) 0
+          if t ≥ bp then .error .badPointer
+          else nameAt w endp fuel t t (max (max furthest (cur + 1)) (cur + 2)) acc
+        else .error .formError
+      else .error .badLabelType
+    else .error .formError
+
+def nameFuel (w : Bytes) : Nat := (w.length + 1) * (w.length + 2)
+
+/-- `parser.get_name()` at `cur` of the whole message (validated by the `Name` constructor) -/
+def decodeName (w : Bytes) (cur : Nat) : Except NameErr Name :=
+  match nameAt w w.length (nameFuel w) cur cur cur [] with
+  | .error e => .error e
+  | .ok (n, _) => Model.validate n
+
 /-! ## TSIG RDATA codec and the rendered TSIG RR -/
 
 /-- `TSIG._to_wire` -/
@@ -214,7 +247,7 @@ def rdataWire (rd : Rdata) : Bytes :=
 /-- `TSIG.from_wire_parser` on the parser restricted to `[start, endp)` of `w` (+ the exact-consumption
 check of `restrict_to`, the constructor's `Rcode.make` range check, both wrapped into FormError). -/
 def rdataParse (w : Bytes) (start endp : Nat) : Except Err Rdata :=
-  match fromWireAux w endp start start start [] with
+  match nameAt w endp (nameFuel w) start start start [] with
   | .error _ => .error .formError
   | .ok (alg, p) =>
     match Model.validate alg with
@@ -337,9 +370,9 @@ def readRR (V : Verifier) (tbl : List AlgEntry) (ttlStrict : Bool) (w : Bytes) (
         else if ttlStrict ∧ ttl ≠ 0 then .error .badTSIG
         else if p + 10 + rdlen > w.length then .error .formError
         else
-          match fromWire w st.cur with
+          match decodeName w st.cur with
           | .error _ => .error .formError
-          | .ok (owner, _) =>
+          | .ok owner =>
             match rdataParse w (p + 10) (p + 10 + rdlen) with
             | .error e => .error e
             | .ok rd =>
